@@ -43,6 +43,17 @@ def ctl_driver(scenarios, tag):
     return vf.run_driver(PID, "./services/controller/standard", "TestVerifC18Ctl", scenarios, "ctl-" + tag)
 
 
+def use_driver(scenarios, tag):
+    # the same behaviours with the consumers (latest / majority block root, best attestation data) asking the real cache
+    return vf.run_driver(PID, "./strategies/beaconblockroot/latest", "TestVerifC18Use", scenarios, "use-" + tag)
+
+
+def use_nontrivial(s, rows):
+    # a strategy chose between roots of which the cache knew some and had to fetch (or failed to fetch) others
+    uses = [r for r in rows if r.get("ev") == "Use"]
+    return any(len(set(u["roots"])) > 1 for u in uses)
+
+
 def ctl_nontrivial(s, rows):
     evs = [r.get("ev") for r in rows]
     return "CtlBlockEvent" in evs or "CtlHeadEvent" in evs
@@ -118,6 +129,7 @@ def run(tier):
     v.assumptions = ["Env_TruthfulNode: block events and headers carry the block's real slot",
                      "beacon node, clock and scheduler are scripted fakes at the service's interfaces"]
     v.add_mc(vf.tlc_exhaustive(PID, "Cache", "MC_Cache.cfg"))
+    v.add_mc(vf.tlc_exhaustive(PID, "Cache", "MC_Cache_use.cfg"))     # the consumers (Use) over two roots, three nodes
     # vacuity self-check: the control design that files a head's parent under head slot - 1 (right whenever no
     # slot was skipped) must be rejected by TLC
     r = vf.tlc(PID, "mc-dev-ParentAtPrevSlot", "Cache", "MC_Cache_dev_ParentAtPrevSlot.cfg", workers=4, timeout=300)
@@ -130,6 +142,9 @@ def run(tier):
     ctl = [x for x in sc if any(st["ev"] in ("CtlBlockEvent", "CtlHeadEvent") for st in x["steps"])]
     ctl = [dict(x, sc=200000 + i) for i, x in enumerate(ctl[:150 if tier == "quick" else 3000])]
     vf.conformance(v, ctl, ctl_driver, "Trace_Cache", "Trace_Cache.cfg", sig_of, ctl_nontrivial)
+    use = [x for x in sc if any(st["ev"] == "Use" for st in x["steps"])]
+    use = [dict(x, sc=300000 + i) for i, x in enumerate(use[:250 if tier == "quick" else 5000])]
+    vf.conformance(v, use, use_driver, "Trace_Cache", "Trace_Cache.cfg", sig_of, use_nontrivial)
     vf.conformance(v, conc_scenarios(tier, 100000), conc_driver, "Trace_CacheConc", "Trace_CacheConc.cfg",
                    conc_sig, conc_nontrivial, dfs=True)
     v.coverage["rule"] = ("behaviours of Cache.tla generated by TLC simulation (seeded), replayed on the real "
@@ -143,7 +158,9 @@ def replay(path):
     v = vf.Verdict(PID, "quick")
     with open(os.path.join(path, "scenario.json")) as fh:
         s = json.load(fh)
-    if s.get("sc", 0) >= 200000:
+    if s.get("sc", 0) >= 300000:
+        vf.conformance(v, [s], use_driver, "Trace_Cache", "Trace_Cache.cfg", sig_of, use_nontrivial)
+    elif s.get("sc", 0) >= 200000:
         vf.conformance(v, [s], ctl_driver, "Trace_Cache", "Trace_Cache.cfg", sig_of, ctl_nontrivial)
     elif "events" in s:
         vf.conformance(v, [s], conc_driver, "Trace_CacheConc", "Trace_CacheConc.cfg", conc_sig, conc_nontrivial, dfs=True)
